@@ -198,10 +198,11 @@ func concurrentPhase(r *core.Run, procs, nworkers, opsPer int, exp []*seqExpect,
 }
 
 func runC14(r *core.Run) {
-	r.Rule("(a) immutability: every generated dump (few frame shapes + small pointer pools so that merges happen) is parsed twice; a random sequence of Aggregate(level)/ToHTML calls runs on copy 1 only; after every call copy 1 must deep-equal its pristine twin and aggregating both must agree; G-SNAP multisets likewise. " +
+	r.Rule("(0) cold start: the first calls into the library in this process are 16 concurrent aggregations and renderings of private snapshots with frames of every location class, compared afterwards with the same renderings done alone; (a) immutability: every generated dump (few frame shapes + small pointer pools so that merges happen) is parsed twice; a random sequence of Aggregate(level)/ToHTML calls runs on copy 1 only; after every call copy 1 must deep-equal its pristine twin and aggregating both must agree; G-SNAP multisets likewise. " +
 		"(b) concurrency under the Go race detector (this binary is built with -race): N goroutines scan, aggregate (4 levels) and render SHARED snapshots with a SHARED *Opts at GOMAXPROCS 2/4/16, each result compared with the precomputed sequential result; (c) rounds of W scans started together with path guessing and source analysis on, over freshly written source files, each compared with the same scan run alone afterwards; race reports are read from the detector's log, a deliberately racy canary must be among them. " +
 		"distinct by hash(input, ops); non-trivial = the aggregation at AnyPointer merges >= 2 goroutines")
 	r.Assume("GORACE=halt_on_error=0 log_path=<work>/race is set by ./check; a missing canary report makes the run BROKEN")
+	c14ColdStart(r)
 	n := r.N(1500, 40000)
 	core.Parallel(n, workers(), func(i int) {
 		rr := core.NewRand(r.Seed, 141, uint64(i))
